@@ -13,6 +13,7 @@ pub fn run(mode: &str, args: &[&str], line: &str) -> String {
         "push" => with_str(line, |s| push_events(args[0], s)),
         "work" => with_str(line, |s| work(args[0], s)),
         "load" => with_str(line, |s| load(args[0], args.get(1).copied().unwrap_or("eager"), s)),
+        "resolve" => with_str(line, resolve),
         _ => format!("|BADMODE {mode}"),
     }
 }
@@ -308,4 +309,66 @@ fn load(node: &str, how: &str, s: &str) -> String {
         }),
         _ => "|BADNODE".into(),
     }
+}
+
+// ---------------------------------------------------------------------------------------------
+// C08: scalar resolution under every (style, tag) configuration of interest
+// ---------------------------------------------------------------------------------------------
+pub const CORE: &str = "tag:yaml.org,2002:";
+fn resolve_configs() -> Vec<(saphyr_parser::ScalarStyle, Option<saphyr_parser::Tag>)> {
+    use saphyr_parser::{ScalarStyle as S, Tag};
+    let t = |h: &str, s: &str| Some(Tag { handle: h.to_string(), suffix: s.to_string() });
+    vec![
+        (S::Plain, None),
+        (S::Plain, t(CORE, "int")),
+        (S::Plain, t(CORE, "float")),
+        (S::Plain, t(CORE, "bool")),
+        (S::Plain, t(CORE, "null")),
+        (S::Plain, t(CORE, "str")),
+        (S::Plain, t("!", "foo")),
+        (S::SingleQuoted, None),
+        (S::DoubleQuoted, None),
+        (S::Literal, None),
+        (S::Folded, None),
+        (S::DoubleQuoted, t(CORE, "int")),
+        (S::Plain, t(CORE, "binary")),
+    ]
+}
+fn resolve(s: &str) -> String {
+    use std::borrow::Cow;
+    let mut out = vec![];
+    let mut flags = vec![];
+    for (i, (st, tg)) in resolve_configs().into_iter().enumerate() {
+        let a = Scalar::parse_from_cow_and_metadata(Cow::Borrowed(s), st, tg.as_ref());
+        let b = ScalarOwned::parse_from_cow_and_metadata(Cow::Borrowed(s), st, tg.as_ref());
+        let da = a.as_ref().map_or("X".to_string(), scalar_dump);
+        let db = b.as_ref().map_or("X".to_string(), scalar_owned_dump);
+        if da != db {
+            flags.push(format!("owned{i}"));
+        }
+        // borrowed -> owned -> borrowed round trip preserves the scalar
+        if let Some(a) = &a {
+            let o = a.clone().into_owned();
+            if scalar_dump(&o.as_scalar()) != da || o.as_scalar() != *a {
+                flags.push(format!("roundtrip{i}"));
+            }
+        }
+        let y = Yaml::value_from_cow_and_metadata(Cow::Borrowed(s), st, tg.as_ref());
+        if y.dump(false) != da {
+            flags.push(format!("yaml{i}"));
+        }
+        if i == 0 {
+            if scalar_dump(&Scalar::parse_from_cow(Cow::Borrowed(s))) != da {
+                flags.push("fromcow".into());
+            }
+            if scalar_owned_dump(&ScalarOwned::parse_from_cow(Cow::Borrowed(s))) != da {
+                flags.push("fromcowowned".into());
+            }
+            if Yaml::value_from_str(s).dump(false) != da {
+                flags.push("valuefromstr".into());
+            }
+        }
+        out.push(da);
+    }
+    format!("{};{}", out.join("|"), if flags.is_empty() { "ok".to_string() } else { flags.join(",") })
 }
